@@ -279,3 +279,82 @@ RACE = Harness(
     stubs=STUBS_COMMON,
 )
 HARNESSES.append(RACE)
+
+
+# ------------------------------------------------------------------------------ K-comp
+def kcomp_params(tier):
+    return [P("slash", 0, 1), P("phase", 0, 1), P("desc", 0, 1)]
+
+
+@guard
+def kcomp_fn(a, tier):
+    """Publications made by components (module-level shortcuts -> ComponentContext -> application context) are announced on the
+    application context with the full payload."""
+    from asphalt.core import Component, add_resource, add_resource_factory, start_component
+
+    slash, phase, desc = pick(a["slash"], 2), pick(a["phase"], 2), pick(a["desc"], 2)
+    d = (lambda text: text) if desc else (lambda text: None)
+    events = []
+    made = object()
+
+    async def publish():
+        add_resource(object(), types=[T0], description=d("the default-named one"))
+        add_resource(object(), "named", [T1, T0], description=d("two types, explicit name"))
+        add_resource_factory(lambda: made, "fac", types=[T1], description=d("a factory"))
+
+    class Leaf(Component):
+        async def prepare(self):
+            if phase == 0:
+                await publish()
+
+        async def start(self):
+            if phase == 1:
+                await publish()
+
+    class Top(Component):
+        def __init__(self):
+            self.add_component("leaf/special" if slash else "leaf", Leaf)
+
+    async def main():
+        async with Context() as ctx, anyio.create_task_group() as tg:
+            async def listen(*, task_status):
+                async with ctx.resource_added.stream_events() as stream:
+                    task_status.started()
+                    async for ev in stream:
+                        events.append((tuple(ev.resource_types), ev.resource_name, ev.resource_description, ev.is_factory))
+
+            await tg.start(listen)
+            await start_component(Top, {}, timeout=None)
+            got = ctx.get_resource_nowait(T1, "fac")
+            await anyio.wait_all_tasks_blocked()
+            tg.cancel_scope.cancel()
+            if got is not made:
+                events.append("wrong factory product")
+
+    _, exc, _k = run(main)
+    summary = {"alias": "leaf/special" if slash else "leaf", "published_in": ["prepare()", "start()"][phase], "with_descriptions": bool(desc)}
+    if exc is not None:
+        return FAIL(f"kcomp:raised:{type(exc).__name__}", repr(exc), summary)
+    default_name = "special" if (slash and phase == 1) else "default"
+    exp = [((T0,), default_name, d("the default-named one"), False), ((T1, T0), "named", d("two types, explicit name"), False),
+           ((T1,), "fac", d("a factory"), True), ((T1,), "fac", d("a factory"), False)]
+    if events != exp:
+        bad = next((i for i, (x, y) in enumerate(zip(events, exp)) if x != y), min(len(events), len(exp)))
+        return FAIL(f"kcomp:announcement-{bad}-differs:desc={desc}", f"got {events} expected {exp}", summary)
+    return OK(summary, True)
+
+
+KCOMP = Harness(
+    prop="C18",
+    name="K-comp",
+    fn=kcomp_fn,
+    params=kcomp_params,
+    cube=lambda tier: 0,
+    title="publications made by components through the shortcuts: payload of the announcements on the application context",
+    bound_text=lambda tier: "a child component 'leaf' / 'leaf/special' publishes in prepare() or start(): a default-named resource, a two-type explicitly named one and a factory, "
+    "with or without descriptions; then the factory's resource is generated from the application context",
+    oracle="exactly four events on the application context, in order, carrying the registered types, the (remapped) name, the description and is_factory",
+    outside="-",
+    stubs=STUBS_COMMON,
+)
+HARNESSES.append(KCOMP)
